@@ -324,6 +324,36 @@ func families() [][]poolEntry {
 			ev("opname", `query A { tag } mutation B { bump(by: 3) }`, true, []string{"A", "B"}),
 			ev("opname", `query B { tag } mutation A { bump(by: 3) }`, true, []string{"A", "B"}),
 		},
+		{ // duplicate input-object field names inside literals that would otherwise be extracted (UniqueInputFieldNames must
+			// still see them): top level, nested object, inside lists, in a list inside an object; valid near-misses
+			e("dupfield", `{ echo(o: {x: 1, x: 2}) }`, true), e("dupfield", `{ echo(o: {x: 1, y: 2}) }`, true),
+			e("dupfield", `{ echo(o: {y: 1, y: 1}) }`, true), e("dupfield", `{ echo(o: {y: 1}) }`, true),
+			e("dupfield", `{ mut(n: {p: {x: 1, x: 2}}) }`, true), e("dupfield", `{ mut(n: {p: {x: 1, y: 2}}) }`, true),
+			e("dupfield", `{ mut(os: [{x: 1, x: 1}]) }`, true), e("dupfield", `{ mut(os: [{x: 1}, {x: 1}]) }`, true),
+			e("dupfield", `{ mut(n: {ps: [{y: 1}, {y: 2, y: 3}]}) }`, true), e("dupfield", `{ mut(n: {ps: [{y: 1}, {y: 2, x: 3}]}) }`, true),
+			e("dupfield", `{ mut(n: {l: [1], l: [1]}) }`, true), e("dupfield", `{ mut(n: {l: [1], ll: [[1]]}) }`, true),
+			e("dupfield", `{ tag mut(o: {x: 1, x: 2}) echo(i: 1) }`, true),
+		},
+		{ // the same response key with literal arguments in the operation AND in a fragment it spreads (the operation's literal
+			// is rewritten, the fragment's is not: OverlappingFieldsCanBeMerged compares them): directly, nested, through a
+			// second fragment, next to inline fragments; equal / different literals; different aliases (never merge)
+			e("fragkey", `{ echo(i: 3) ...F } fragment F on Query { echo(i: 3) }`, true),
+			e("fragkey", `{ echo(i: 3) ...F } fragment F on Query { echo(i: 4) }`, true),
+			e("fragkey", `{ ...F echo(s: "a") } fragment F on Query { echo(s: "a") }`, true),
+			e("fragkey", `{ echo(i: 3) ...F } fragment F on Query { ...G } fragment G on Query { echo(i: 3) }`, true),
+			e("fragkey", `{ echo(i: 3) ... on Query { echo(i: 3) } ...F } fragment F on Query { tag }`, true),
+			e("fragkey", `{ ... on Query { echo(i: 3) } ...F } fragment F on Query { echo(i: 3) }`, true),
+			e("fragkey", `{ ... on Query { echo(i: 3) } ...F } fragment F on Query { ... on Query { echo(i: 3) } }`, true),
+			e("fragkey", `{ a: echo(i: 3) ...F } fragment F on Query { b: echo(i: 3) }`, true),
+			e("fragkey", `{ a: echo(i: 3) ...F } fragment F on Query { a: echo(i: 3) }`, true),
+			e("fragkey", `{ item(id: 1) { name(prefix: "a") ...G } } fragment G on Item { name(prefix: "a") }`, true),
+			e("fragkey", `{ item(id: 1) { name(prefix: "a") ...G } } fragment G on Item { name(prefix: "b") }`, true),
+			e("fragkey", `{ item(id: 1) { id } ...H } fragment H on Query { item(id: 1) { kind } }`, true),
+			e("fragkey", `{ item(id: 1) { next { name(sep: "-") } ...G } } fragment G on Item { next { name(sep: "-") } }`, true),
+			e("fragkey", `{ echo(l: [1, 2]) ...F } fragment F on Query { echo(l: [1, 2]) }`, true),
+			e("fragkey", `{ echo(o: {y: 1}) ...F } fragment F on Query { echo(o: {y: 1}) }`, true),
+			ev("fragkey", `query Q($x: Int) { echo(i: 3) ...F } fragment F on Query { echo(i: $x) }`, true, []string{"Q"}, V("x", 3)),
+		},
 		{ // a SECOND spread of a fragment that is already spread elsewhere: present / absent / with a directive, in another
 			// selection set, in the same one, and under inline fragments (a key function that emits a fragment once per
 			// document must still see every spread of it)
